@@ -5,6 +5,11 @@
 
 package core
 
+import (
+	"context"
+	"time"
+)
+
 // VerifShellSafeQuote exposes shellSafeQuote.
 func VerifShellSafeQuote(s string) string {
 	return shellSafeQuote(s)
@@ -35,3 +40,63 @@ func VerifJobScript(template string, shellCmd string, argv []string,
 	return jm.jobScript(shellCmd, argv, envs,
 		NewMetadata(fqname, mdPath), &res, fqname, shellName)
 }
+
+// VerifJob describes one job handed to the job manager.
+type VerifJob struct {
+	ShellCmd  string
+	Argv      []string
+	Envs      map[string]string
+	Metadata  *Metadata
+	Resources *JobResources
+	Fqname    string
+	ShellName string
+	Preflight bool
+}
+
+// VerifJobManager is a JobManager which, instead of starting a process,
+// hands every job to a callback, so that a test harness can decide when
+// (and how) each job completes.  Resource normalisation is delegated to
+// the local job manager.
+type VerifJobManager struct {
+	Local  *LocalJobManager
+	OnExec func(*VerifJob)
+	OnEnd  func(*Metadata)
+}
+
+func (self *VerifJobManager) execJob(shellCmd string, argv []string,
+	envs map[string]string, metadata *Metadata, res *JobResources,
+	fqname string, shellName string, preflight bool) {
+	self.OnExec(&VerifJob{
+		ShellCmd:  shellCmd,
+		Argv:      argv,
+		Envs:      envs,
+		Metadata:  metadata,
+		Resources: res,
+		Fqname:    fqname,
+		ShellName: shellName,
+		Preflight: preflight,
+	})
+}
+
+func (self *VerifJobManager) endJob(md *Metadata) {
+	if self.OnEnd != nil {
+		self.OnEnd(md)
+	}
+}
+
+func (self *VerifJobManager) checkQueue(ids []string, _ context.Context) ([]string, string) {
+	return ids, ""
+}
+func (self *VerifJobManager) hasQueueCheck() bool            { return false }
+func (self *VerifJobManager) queueCheckGrace() time.Duration { return 0 }
+func (self *VerifJobManager) refreshResources(bool) error    { return nil }
+func (self *VerifJobManager) GetSystemReqs(r *JobResources) JobResources {
+	return self.Local.GetSystemReqs(r)
+}
+func (self *VerifJobManager) GetMaxCores() int { return self.Local.GetMaxCores() }
+func (self *VerifJobManager) GetMaxMemGB() int { return self.Local.GetMaxMemGB() }
+func (self *VerifJobManager) GetSettings() *JobManagerSettings {
+	return self.Local.GetSettings()
+}
+func (self *VerifJobManager) resetMaxJobs()      {}
+func (self *VerifJobManager) reattach(*Metadata) {}
